@@ -59,6 +59,10 @@ def rv_places(rv):
     return [op_place(o) for o in rv_operands(rv) if op_place(o)]
 
 
+_MUTATOR = re.compile(r'^(alloc::vec::Vec|smallvec::SmallVec|alloc::collections::vec_deque::VecDeque|alloc::string::String)::'
+                      r'(push|push_back|push_front|insert|extend_from_slice|append|push_str)$|^core::iter::traits::collect::Extend::extend$')
+
+
 class Flow:
     """Flow-insensitive derived-from relation between the locals of one body.
 
@@ -92,6 +96,15 @@ class Flow:
                     l = op_local(a)
                     if l is not None:
                         self._edge(l, dst)
+            # container mutators: what is pushed / inserted / appended flows into the container behind the receiver reference
+            if only is None and n and _MUTATOR.search(n) and len(t['args']) >= 2:
+                recv = op_local(t['args'][0])
+                if recv is not None:
+                    for root in referent_roots(body, recv):
+                        for a in t['args'][1:]:
+                            l = op_local(a)
+                            if l is not None:
+                                self._edge(l, root)
         for i, blk in enumerate(body.blocks):
             t = blk['t']
             if t['k'] == 'yield' and not blk['cleanup']:
